@@ -14,17 +14,183 @@ async function load(path) {
   return modules.get(path);
 }
 
+function lowerFirst(s) { return s ? s[0].toLowerCase() + s.slice(1) : s; }
+
+function describeError(e) {
+  if (e && typeof e === 'object') {
+    return {
+      name: e.name ?? null,
+      ctor: e.constructor ? e.constructor.name : null,
+      message: String(e.message ?? ''),
+      statusCode: e.statusCode ?? null,
+      body: typeof e.body === 'string' ? e.body : null,
+      violations: Array.isArray(e.violations) ? e.violations : null,
+    };
+  }
+  return { name: null, ctor: typeof e, message: String(e) };
+}
+
+// ---- TS servers ------------------------------------------------------------------------------------
+
+const servers = new Map(); // id -> { server, port, calls, responses, routes }
+
+function matchRoute(routes, method, pathname) {
+  const segs = pathname.split('/');
+  for (const r of routes) {
+    if (r.method !== method) continue;
+    const ts = r.path.split('/');
+    if (ts.length !== segs.length) continue;
+    let ok = true;
+    for (let i = 0; i < ts.length; i++) {
+      if (ts[i].startsWith('{') && ts[i].endsWith('}')) {
+        if (segs[i] === '') { ok = false; break; }
+        continue;
+      }
+      if (ts[i] !== segs[i]) { ok = false; break; }
+    }
+    if (ok) return r;
+  }
+  return null;
+}
+
+async function startServer({ sid, module: modPath, services, onError }) {
+  const mod = await load(modPath);
+  const state = { calls: [], responses: new Map(), routes: [] };
+  for (const svc of services) {
+    const handler = new Proxy({}, {
+      get(_t, prop) {
+        if (typeof prop !== 'string' || prop === 'then') return undefined;
+        return async (ctx, req) => {
+          state.calls.push({
+            service: svc, method: prop, request: req === undefined ? null : JSON.parse(JSON.stringify(req ?? null)),
+            requestTypes: shallowTypes(req), pathParams: ctx?.pathParams ?? null, headers: ctx?.headers ?? null,
+          });
+          const r = state.responses.get(svc + '.' + prop);
+          if (!r) throw new Error('no response configured for ' + svc + '.' + prop);
+          if (r.error) {
+            if (r.error.kind === 'validation') throw new mod.ValidationError(r.error.violations);
+            if (r.error.kind === 'api') throw new mod.ApiError(r.error.statusCode, r.error.message, r.error.body ?? '');
+            throw new Error(r.error.message ?? 'boom');
+          }
+          return r.response;
+        };
+      },
+    });
+    const create = mod['create' + svc + 'Routes'];
+    if (typeof create !== 'function') throw new Error('module exports no create' + svc + 'Routes');
+    const opts = {};
+    if (onError) {
+      opts.onError = (err, _req) => new Response(JSON.stringify({ hooked: true, message: String(err?.message ?? err) }), { status: 599, headers: { 'Content-Type': 'application/json' } });
+    }
+    for (const r of create(handler, opts)) state.routes.push(r);
+  }
+  const server = http.createServer(async (req, res) => {
+    try {
+      const chunks = [];
+      for await (const c of req) chunks.push(c);
+      const body = Buffer.concat(chunks);
+      const url = new URL(req.url, 'http://127.0.0.1');
+      const route = matchRoute(state.routes, req.method, url.pathname);
+      if (!route) {
+        res.writeHead(404, { 'Content-Type': 'text/plain' });
+        res.end('no route for ' + req.method + ' ' + url.pathname);
+        return;
+      }
+      const headers = new Headers();
+      for (const [k, v] of Object.entries(req.headers)) headers.set(k, Array.isArray(v) ? v.join(', ') : String(v));
+      const init = { method: req.method, headers };
+      if (req.method !== 'GET' && req.method !== 'HEAD' && req.method !== 'DELETE') init.body = body;
+      else if (body.length > 0 && req.method === 'DELETE') init.body = body;
+      const request = new Request('http://127.0.0.1' + req.url, init);
+      const response = await route.handler(request);
+      const out = Buffer.from(await response.arrayBuffer());
+      const h = {};
+      response.headers.forEach((v, k) => { h[k] = v; });
+      res.writeHead(response.status, h);
+      res.end(out);
+    } catch (e) {
+      res.writeHead(597, { 'Content-Type': 'text/plain' });
+      res.end('driver dispatch failure: ' + String(e && e.stack ? e.stack : e));
+    }
+  });
+  await new Promise((resolve, reject) => { server.once('error', reject); server.listen(0, '127.0.0.1', resolve); });
+  state.server = server;
+  state.port = server.address().port;
+  servers.set(sid, state);
+  return { port: state.port, routes: state.routes.map((r) => ({ method: r.method, path: r.path })) };
+}
+
+function shallowTypes(obj) {
+  if (obj === null || typeof obj !== 'object' || Array.isArray(obj)) return null;
+  const out = {};
+  for (const [k, v] of Object.entries(obj)) out[k] = v === null ? 'null' : Array.isArray(v) ? 'array' : typeof v;
+  return out;
+}
+
+// ---- TS clients ------------------------------------------------------------------------------------
+
+async function clientCall({ module: modPath, service, method, baseURL, request, clientOptions, callOptions, capture, cannedStatus, cannedBody }) {
+  const mod = await load(modPath);
+  const Cls = mod[service + 'Client'];
+  if (typeof Cls !== 'function') throw new Error('module exports no ' + service + 'Client');
+  const copts = { ...(clientOptions ?? {}) };
+  let captured = null;
+  if (capture) {
+    copts.fetch = async (url, init) => {
+      const headers = {};
+      new Headers(init?.headers ?? {}).forEach((v, k) => { headers[k] = v; });
+      captured = { url: String(url), method: init?.method ?? 'GET', headers, body: init?.body == null ? null : String(init.body) };
+      return new Response(cannedBody ?? '{}', { status: cannedStatus ?? 200, headers: { 'Content-Type': 'application/json' } });
+    };
+  }
+  const client = new Cls(baseURL, copts);
+  const fn = client[lowerFirst(method)];
+  if (typeof fn !== 'function') throw new Error('client has no method ' + lowerFirst(method));
+  try {
+    const result = await fn.call(client, request, callOptions ?? undefined);
+    return { result: result === undefined ? null : result, captured };
+  } catch (e) {
+    return { callError: describeError(e), captured };
+  }
+}
+
 const handlers = {
   async ping() { return { version: process.version }; },
   async load({ path }) {
     const m = await load(path);
     return { exports: Object.keys(m).sort() };
   },
+  async ts_routes({ module: modPath, service }) {
+    const mod = await load(modPath);
+    const create = mod['create' + service + 'Routes'];
+    if (typeof create !== 'function') throw new Error('module exports no create' + service + 'Routes');
+    return { routes: create({}, {}).map((r) => ({ method: r.method, path: r.path })) };
+  },
+  ts_server_start: startServer,
+  async ts_server_respond({ sid, service, method, response, error }) {
+    const s = servers.get(sid);
+    if (!s) throw new Error('no server ' + sid);
+    s.responses.set(service + '.' + lowerFirst(method), { response, error });
+    return {};
+  },
+  async ts_server_calls({ sid }) {
+    const s = servers.get(sid);
+    if (!s) throw new Error('no server ' + sid);
+    const calls = s.calls;
+    s.calls = [];
+    return { calls };
+  },
+  async ts_server_stop({ sid }) {
+    const s = servers.get(sid);
+    if (s) { await new Promise((r) => s.server.close(r)); servers.delete(sid); }
+    return {};
+  },
+  ts_client_call: clientCall,
 };
 
-export function register(name, fn) { handlers[name] = fn; }
-export { load, http };
-
+// The parent going away (stdin EOF) must end this process even while TS servers are listening.
+process.stdin.on('end', () => process.exit(0));
+process.stdin.on('close', () => process.exit(0));
 const rl = createInterface({ input: process.stdin, crlfDelay: Infinity });
 for await (const line of rl) {
   if (!line.trim()) continue;
@@ -40,3 +206,5 @@ for await (const line of rl) {
     process.stdout.write(JSON.stringify({ id, ok: false, error: String(e && e.stack ? e.stack.split('\n').slice(0, 4).join(' | ') : e), name: e && e.name }) + '\n');
   }
 }
+
+process.exit(0);
